@@ -172,6 +172,17 @@ def _rows(variant):
             ("y", "p3", (("a", 1.0), ("b", 1.0)), 0.8, False),
             ("y", "p4", (("b", 1.0), ("d", 1.0)), 0.9, False),
         ]
+    elif variant == 4:
+        # every treatment of the last sample is already covered when the initial cover reaches it (its "pick anything" branch)
+        rows = [
+            ("s0", "p0", (("a", 1.0), ("b", 1.0)), 0.31, False),
+            ("s1", "p0", (("c", 1.0), ("d", 1.0)), 0.32, False),
+            ("s2", "p1", (("a", 1.0), ("c", 1.0)), 0.33, False),
+            ("s2", "p1", (("b", 1.0), ("d", 1.0)), 0.34, False),
+            ("s2", "p2", (("d", 1.0), ("a", 1.0)), 0.36, False),
+            ("s3", "p2", (("b", 1.0), ("c", 1.0)), 0.37, False),
+            ("s3", "p2", (("c", 1.0), ("b", 1.0)), 0.38, False),
+        ]
     elif variant == 3:
         rows = [
             ("s0", "p1", (("a", 1.0), ("b", 1.0)), 0.35, False),
@@ -262,6 +273,12 @@ def op_sparse_cover(seed, variant, tmp):
     return _snap(R.SparseCoverPlateGenerator(reveal_single_treatment_experiments=False).generate_and_unmask_initial_plate(screen, rng))
 
 
+def op_sparse_cover_late(seed, variant, tmp):
+    screen = input_screen(4, all_observed=True)
+    rng = np.random.default_rng(seed)
+    return _snap(R.SparseCoverPlateGenerator(reveal_single_treatment_experiments=bool(variant % 2)).generate_and_unmask_initial_plate(screen, rng))
+
+
 def op_holdout(which):
     def run(seed, variant, tmp):
         screen = input_screen(variant)
@@ -301,14 +318,14 @@ def op_select_policy(seed, variant, tmp):
     return None if plate is None else int(plate.plate_id)
 
 
-def op_sample_model(which):
+def op_sample_model(which, burnin=1):
     def run(seed, variant, tmp):
         screen = input_screen(variant, all_observed=True)
         es = ExperimentSpace.from_screen(screen)
         cls = SparseDrugCombo if which == "combo" else SparseDrugComboInteraction
         model = cls(experiment_space=es, n_embedding_dimensions=2)
         model.add_observations(screen.subset_observed())
-        res = sampling.sample(model, ThetaHolder(n_thetas=2), seed=seed, n_chains=2, chain_index=variant % 2, n_burnin=1, thin=2)
+        res = sampling.sample(model, ThetaHolder(n_thetas=2), seed=seed, n_chains=2, chain_index=variant % 2, n_burnin=burnin, thin=2)
         return _theta_bytes(res)
     return run
 
@@ -362,7 +379,7 @@ def cli_prepare(with_initial):
     return run
 
 
-def cli_train(model):
+def cli_train(model, burnin=1):
     def run(seed, variant, tmp):
         screen = input_screen(variant)
         if model == "SparseDrugComboInteraction":
@@ -370,7 +387,7 @@ def cli_train(model):
         a, out = os.path.join(tmp, "in.h5"), os.path.join(tmp, "thetas.h5")
         screen.save_h5(a)
         run_cli("train_model", ["--data", a, "--output", out, "--model", model, "--model-param", "n_embedding_dimensions=2",
-                                "--n-samples", 2, "--n-burnin", 1, "--thin", 1, "--n-chains", 2, "--chain-index", variant % 2, "--seed", seed])
+                                "--n-samples", 2, "--n-burnin", burnin, "--thin", 1, "--n-chains", 2, "--chain-index", variant % 2, "--seed", seed])
         return _theta_bytes(ThetaHolder.load_h5(out))
     return run
 
@@ -434,6 +451,7 @@ def operations(tier):
     ops["smooth:n_per_sample(1)"] = op_smoother("NPlatePerCellLineSmoother", {"min_n_cell_line_plates": 1})
     ops["smooth:ensemble(2,1,1)"] = op_smoother("BatchieEnsemblePlateSmoother", {"min_size": 2, "n_iterations": 1, "min_n_cell_line_plates": 1})
     ops["sparse_cover"] = op_sparse_cover
+    ops["sparse_cover:late-sample-covered"] = op_sparse_cover_late
     ops["holdout:plate"] = op_holdout("create_plate_balanced_holdout_set_among_masked_plates")
     ops["holdout:random"] = op_holdout("create_random_holdout")
     ops["score:random"] = op_random_scorer
@@ -441,11 +459,15 @@ def operations(tier):
     ops["select:k-per-sample"] = op_select_policy
     ops["sample:SparseDrugCombo"] = op_sample_model("combo")
     ops["sample:SparseDrugComboInteraction"] = op_sample_model("interaction")
+    # edge of the schedule: no burn-in at all (the seeded stream must reach the model just the same)
+    ops["sample:SparseDrugCombo:burnin0"] = op_sample_model("combo", burnin=0)
+    ops["sample:SparseDrugComboInteraction:burnin0"] = op_sample_model("interaction", burnin=0)
     ops["sample:variational-stub"] = op_sample_vi_stub
     ops["cli:prepare_retrospective_simulation"] = cli_prepare(False)
     ops["cli:prepare_retrospective_simulation+initial"] = cli_prepare(True)
     ops["cli:train_model:SparseDrugCombo"] = cli_train("SparseDrugCombo")
     ops["cli:train_model:SparseDrugComboInteraction"] = cli_train("SparseDrugComboInteraction")
+    ops["cli:train_model:SparseDrugCombo:burnin0"] = cli_train("SparseDrugCombo", burnin=0)
     ops["cli:calculate_scores:RandomScorer"] = cli_scores("RandomScorer", 3)
     ops["cli:calculate_scores:GaussianDBALScorer"] = cli_scores("GaussianDBALScorer", 33)
     ops["cli:calculate_scores:RandomScorer:chunk1of2"] = cli_scores("RandomScorer", 3, 2, 1)
